@@ -764,6 +764,10 @@ func nmStreamRun(c *nmCase, tab *nmTable, conc *nmConc) Verdict {
 				v := fail("stream-key-split", "%s: projection %q gives tuple %q two different keys", what, uniq, tup)
 				return &v
 			}
+			if len(l.byKey) > 300000 {
+				// bound the harness's own bookkeeping (the projection keeps its history)
+				l.byKey, l.byTup = map[benchproc.Key]string{}, map[string]benchproc.Key{}
+			}
 			l.byKey[key], l.byTup[ts] = ts, key
 		}
 		return nil
